@@ -321,7 +321,8 @@ template<Shape S, bool OPEN, int AK> struct Runner {
 			for (; it != x.end(); ++it) { if constexpr (SI::isMulti) { if (es(*it) == E2S(k, v)) break; } else { if (keyOf(*it) == k) break; } }
 			if (it != x.end()) { try { x.erase(it, std::next(it)); out << "ok"; } catch (const std::invalid_argument&) { out << "inv"; } } else out << "none";
 		} else if (o == "at") {
-			if constexpr (SI::isMap && !SI::isMulti) { try { out << CD::mi(x.at(CD::K(I(w, 2)))); } catch (const std::out_of_range&) { out << "oor"; } }
+			if constexpr (SI::isMap && !SI::isMulti) { try { if (I(w, 2) & 1) out << CD::mi(x.at(CD::K(I(w, 2)))); else out << CD::mi(static_cast<const C&>(x).at(CD::K(I(w, 2)))); }   // both overloads
+				catch (const std::out_of_range&) { out << "oor"; } }
 		} else if (o == "idx") { if constexpr (SI::isMap && !SI::isMulti) { const typename CD::key k = CD::K(I(w, 2)); int v = CD::mi(x[k]); out << v; }
 		} else if (o == "set") { if constexpr (SI::isMap && !SI::isMulti) { const typename CD::key k = CD::K(I(w, 2)); x[k] = CD::M(I(w, 3)); out << "-"; }
 		} else if (o == "setr") { if constexpr (SI::isMap && !SI::isMulti) { typename CD::key k = CD::K(I(w, 2)); x[std::move(k)] = CD::M(I(w, 3)); out << "-"; }
